@@ -658,12 +658,17 @@ class Blockwise(ArrayExpr):
                     new_args.extend([arg, arg_ind])
                 else:
                     arg_slices = []
-                    for dim_idx in arg_ind:
+                    for arg_pos, dim_idx in enumerate(arg_ind):
                         try:
                             out_pos = out_ind.index(dim_idx)
-                            arg_slices.append(slice_index[out_pos])
                         except ValueError:
                             arg_slices.append(slice(None))
+                            continue
+                        if arg.shape[arg_pos] == 1 and self.shape[out_pos] != 1:
+                            # broadcast along this axis: every output position reads its single element
+                            arg_slices.append(slice(None))
+                        else:
+                            arg_slices.append(slice_index[out_pos])
 
                     sliced_arg = new_collection(arg)[tuple(arg_slices)]
                     new_args.extend([sliced_arg.expr, arg_ind])
